@@ -102,7 +102,7 @@ pub fn full_menu() -> Vec<Expr> {
             m.push(t(Test::Perm(k, b)));
         }
     }
-    for p in ["file.txt", "FILE.TXT", "*.txt", "f?le*", "[a-f]*", "dir/*", "отчёт*", "ΑΘΗΝΑ", "*.[0-9]", "Ünï?", "\\[draft", "\\*", "\\**", "a**b", "a*b", "[abc", "x\\?", "f"] {
+    for p in ["file.txt", "FILE.TXT", "*.txt", "f?le*", "[a-f]*", "dir/*", "отчёт*", "ΑΘΗΝΑ", "*.[0-9]", "Ünï?", "\\[draft", "\\*", "\\**", "a**b", "a*b", "[abc", "x\\?", "f", "q\"r", "a\\b", "it's"] {
         m.push(t(Test::Name(p.into())));
         m.push(t(Test::IName(p.into())));
         m.push(t(Test::Path(p.into())));
@@ -557,6 +557,20 @@ pub fn check_tree(tree: &Expr, text_route: bool, acc: &mut Acc) {
                 if &conv::expr(&e) == tree {
                     routes.push(("text", e));
                     acc.count("text_route", 1);
+                } else if let speclib::textspec::Spec::Accept { tree: read, .. } = speclib::textspec::parse(&input) {
+                    // the words do not spell this tree back (or the parser read them differently):
+                    // the parsed expression is validated against the reference reading of the text
+                    // (a keyword mapped to a neighbouring node shows up as a semantic difference)
+                    if inexpressible(&read).is_empty() {
+                        acc.count("text_route_reference_reading", 1);
+                        if let Err(m) = validate(&read, &e, acc) {
+                            acc.violate(Violation::new(
+                                format!("C02:{}:text-route", m.aspect),
+                                format!("{input:?} (reference reading {}): {}", read.show(), m.detail),
+                                json!({"kind": "text", "input": input}),
+                            ));
+                        }
+                    }
                 }
             }
         }
@@ -734,6 +748,15 @@ pub fn run(ctx: &Ctx) -> i32 {
 
 pub fn replay(w: &Value) -> Vec<Violation> {
     let mut acc = Acc::new();
+    if w["kind"] == "text" {
+        let input = w["input"].as_str().unwrap_or("");
+        if let (speclib::textspec::Spec::Accept { tree: read, .. }, P::Ok(_, e)) = (speclib::textspec::parse(input), parse_real(input)) {
+            if let Err(m) = validate(&read, &e, &mut acc) {
+                return vec![Violation::new(format!("C02:{}:text-route", m.aspect), format!("{input:?}: {}", m.detail), w.clone())];
+            }
+        }
+        return vec![];
+    }
     if w["kind"] == "history" {
         return histories().violations.into_values().map(|(v, _)| v).collect();
     }
